@@ -233,6 +233,11 @@ func (w *nw) Apply(x *vrt.Exec, evn string) {
 				}
 			}
 			sort.Slice(ips, func(a, b int) bool { return ips[a].IP < ips[b].IP })
+			if len(p.Status.PodIPs) > 0 {
+				// the addresses a pod reports are those its sandbox was set up with: they never change afterwards
+				// (a re-report that DROPS an address the record lost meanwhile is not something a kubelet does)
+				break
+			}
 			p.Status.PodIPs = ips
 			if len(ips) > 0 {
 				p.Status.PodIP = ips[0].IP
